@@ -111,6 +111,9 @@ def corpus(ctx):
         cs.append(mk(B, b"18446744073709551617 7", ["i", "i", "e"]))
         cs.append(mk(B, b"abc 0", ["c:10", "e", "l"]))
         cs.append(mk(B, b" -12\r\nabc 7", ["i", "g", "l", "m:6162", "u:98", "c:3", "w", "I", "e", "g"]))
+    # a newline that was never extracted is put back twice: `--line_` on the unsigned counter wraps at 0
+    # (the model keeps a representative modulo 2^32; DESIGN 8.5)
+    cs.append(mk(4096, b"abcd\nx", ["g", "g", "u:10", "l", "u:10", "l", "g", "l", "g", "l", "g", "g", "g", "l"], True))
     return cs
 
 def generate(ctx):
